@@ -253,3 +253,30 @@ Proof.
       with (mkObs RDbErr 0 1 :: repeat (mkObs RDbErr 0 0) n).
     cbn [total_queries]. rewrite total_queries_repeat. cbn [oqi oqp]. lia.
 Qed.
+
+(* (seeded C06-8, C07-7) the shared result of a flight is a REFERENCE to the leader's destination
+   cell instead of a copy taken inside the flight: a reader that joined the flight encodes /
+   copies the cell after the leader's read has returned, when the cell belongs to the leader's
+   caller again.  [m] is what that caller has made of it meanwhile (load; change; save).  One
+   query, a correct store and database - but the joiners do not receive the query's result. *)
+Definition shared_take_alias (c : config) (s : state) (p t : Z) (n : nat) (m : ret) : state * list obs :=
+  (fst (step c s (OTake p t)), snd (step c s (OTake p t)) :: repeat (mkObs m 0 0) n).
+
+Theorem shared_reference_refuted :
+  exists c s p t m, forall n, (0 < n)%nat ->
+    total_queries (snd (shared_take_alias c s p t n m)) = 1 /\
+    fst (shared_take_alias c s p t n m) = fst (step c s (OTake p t)) /\
+    ~ Forall (fun o => oret o = oret (snd (step c s (OTake p t)))) (snd (shared_take_alias c s p t n m)) /\
+    (* with a copy taken inside the flight (the real code) they all do: Props.load_suppression *)
+    Forall (fun o => oret o = oret (snd (step c s (OTake p t)))) (snd (shared_take c s p t n)).
+Proof.
+  exists f7_cfg, (init f7_rows), 1, 100, (RRow 1 7 11).
+  intros n Hn. destruct n as [|n]; [inversion Hn|].
+  split; [|split; [reflexivity|split]].
+  - change (snd (shared_take_alias f7_cfg (init f7_rows) 1 100 (S n) (RRow 1 7 11)))
+      with (mkObs (RRow 1 7 41) 0 1 :: repeat (mkObs (RRow 1 7 11) 0 0) (S n)).
+    cbn [total_queries]. rewrite total_queries_repeat. cbn [oqi oqp]. lia.
+  - intro F. inversion F as [|x l _ F']. subst. inversion F' as [|y l' E _]. subst.
+    vm_compute in E. discriminate.
+  - apply (load_suppression_lemma f7_cfg (init f7_rows) 1 100 (S n)).
+Qed.
